@@ -14,7 +14,7 @@
 (* -- an invariant of the design model -- is required; for Ward, centroid  *)
 (* and median linkage only the partition and count clauses.                *)
 (***************************************************************************)
-EXTENDS HierClust, Elem, TraceIO
+EXTENDS HierClust, Elem, C06BuilderOps, TraceIO
 
 CONSTANT Devs      \* named deviations (known findings)
 
@@ -106,9 +106,21 @@ CanReach(g, lk, cr, P, part, w) ==
 PartOf(labels, n) == {{i \in 1..n : labels[i] = l} : l \in {labels[i] : i \in 1..n}}
 SamePart(a, b, n) == \A i, j \in 1..n : (a[i] = a[j]) <=> (b[i] = b[j])
 
+\* Builder histories: an event with hi > 0 was produced by HierarchicalCluster::default() followed by the setter
+\* calls In.hists[hi].ops; by the builder model (C06Builder) they end in (In.link, In.crits[ci]) -- checked here --
+\* so the labels must satisfy the same relation as the directly configured call.
+HDefault == [link |-> "average", crit |-> [t |-> "num", c |-> 2, tn |-> 0, td |-> 1]]
+HOps(h) == [q \in 1..Len(h) |-> [f |-> h[q].f, v |-> IF h[q].f = "link" THEN h[q].link ELSE h[q].crit]]
+HistOK(o) ==
+  o.hi = 0 \/ (/\ o.hi \in 1..Len(In.hists)
+               /\ In.hists[o.hi].ci = o.ci
+               /\ o.ci \in 1..Len(In.crits)
+               /\ FoldOps(HDefault, HOps(In.hists[o.hi].ops)) = [link |-> In.link, crit |-> In.crits[o.ci]])
+
 ClustBad(o) ==
   LET g == CaseG IN
-  IF ~(o.ok /\ o.size = g.n /\ Len(o.labels) = g.n /\ o.ci \in 1..Len(In.crits)) THEN {"not-a-labelling"}
+  IF ~HistOK(o) THEN {"unsafe-history"}
+  ELSE IF ~(o.ok /\ o.size = g.n /\ Len(o.labels) = g.n /\ o.ci \in 1..Len(In.crits)) THEN {"not-a-labelling"}
   \* same criterion and same partition as the previous, already explained, event
   ELSE IF e > 1 /\ Case.ev[e - 1].ev = "clust" /\ Case.ev[e - 1].ci = o.ci /\ SamePart(o.labels, Case.ev[e - 1].labels, g.n) THEN {}
   ELSE LET cr == In.crits[o.ci]
